@@ -135,6 +135,45 @@ def run (ops : List (Op H)) : Pool H := ops.foldl step []
 
 end
 
+/-! ### Worker level: how validator answers become a pool entry (txnpool_worker.go handleRsp / putTxPool,
+verifyStateful) and how `TXPoolServer.getTxPool` hands entries to consensus -/
+
+section
+variable {H : Type} [DecidableEq H]
+
+/-- pool, transactions being verified with the results collected so far, and the height last set by consensus -/
+structure WState (H : Type) where
+  pool : Pool H
+  pend : List (H × List Attr)
+  height : Nat
+
+def hasKind (attrs : List Attr) (k : Nat) : Bool := attrs.any (fun a => a.kind == k)
+
+/-- `handleRsp` for one pending transaction and an answer of validator `k` (0 stateless, 1 stateful) at height `h`:
+a stateful answer below the server height is sent back to the validator; otherwise the result is recorded once. -/
+def recordAnswer (srvHeight k h : Nat) (attrs : List Attr) : List Attr :=
+  if k == 1 && decide (h < srvHeight) then attrs
+  else if hasKind attrs k then attrs
+  else attrs ++ [⟨h, k, 0⟩]
+
+/-- the validator of kind `k` answers every request it holds (every pending transaction without a result of that
+kind); transactions with both results go to the pool (`putTxPool`) -/
+def WState.answer (s : WState H) (k h : Nat) : WState H :=
+  let upd := s.pend.map (fun (p : H × List Attr) => (p.1, recordAnswer s.height k h p.2))
+  let done := upd.filter (fun p => hasKind p.2 0 && hasKind p.2 1)
+  let rest := upd.filter (fun p => !(hasKind p.2 0 && hasKind p.2 1))
+  { s with pool := done.foldl (fun q p => (add q ⟨p.1, p.2⟩).1) s.pool, pend := rest }
+
+/-- `TXPoolServer.getTxPool byCount height`: sets the height, hands out the eligible entries, removes the stale ones
+from the pool and queues them for stateful re-verification (`verifyStateful` marks the stateless part as done). -/
+def WState.getTx (s : WState H) (order : List (Entry H)) (byCount : Bool) (height maxTx : Nat) :
+    WState H × List (Entry H) :=
+  let r := getTxPool s.pool order byCount height maxTx
+  let pool' := r.2.foldl (fun q e => erase q e.hash) s.pool
+  ({ pool := pool', pend := s.pend ++ r.2.map (fun e => (e.hash, [⟨0, 0, 0⟩])), height := height }, r.1)
+
+end
+
 /-! ### Server level: admission bookkeeping of txnpool/proc, by counts
 
 `TxActor.handleTransaction` (one actor, one message at a time) reads the pending count, then the pool count, and
